@@ -341,6 +341,15 @@ func scribbleConfig(c *cors.Config, with string) {
 	if c == nil {
 		return
 	}
+	// ... and the fields that are not slices (a result that points INTO the middleware instead of copying it shows here)
+	c.Credentialed = !c.Credentialed
+	c.MaxAgeInSeconds, c.PreflightSuccessStatus = 86401, 299
+	c.PrivateNetworkAccess, c.PrivateNetworkAccessInNoCORSModeOnly = !c.PrivateNetworkAccess, true
+	c.DangerouslyTolerateInsecureOrigins = !c.DangerouslyTolerateInsecureOrigins
+	c.DangerouslyTolerateSubdomainsOfPublicSuffixes = !c.DangerouslyTolerateSubdomainsOfPublicSuffixes
+	if c == nil {
+		return
+	}
 	scribble(c.Origins, with)
 	scribble(c.Methods, with)
 	scribble(c.RequestHeaders, with)
@@ -861,7 +870,12 @@ func cmdLife(args []string) {
 					if rng.Intn(2) == 0 {
 						lr.observe("m") // having served requests under the old configuration
 					}
-					lr.reconf("m", "c1", ct)
+					if p := lr.mws["m"].Config(); p != nil && (ti+dir)%2 == 0 {
+						*p = *cloneConfig(ct) // read - edit in place - write back
+						lr.reconf("m", "c1", p)
+					} else {
+						lr.reconf("m", "c1", ct)
+					}
 					lr.newMW("f", "c1", *cloneConfig(ct))
 					lr.observe("f")
 					lr.observe("m")
@@ -920,6 +934,33 @@ func cmdLife(args []string) {
 					lr.reconf("m", "invalid", c)
 					lr.observe("m")
 				}
+			}
+			// invalid configurations whose ORIGINS are many and valid (several schemes on one host, custom schemes, ports,
+			// wildcards, IP literals): building their tree before rejecting them must not touch anything shared
+			for q := 0; q < 4; q++ {
+				rs := randSem(rng)
+				rs.Any = false
+				rs.Pats = append(family(rng, ipPatterns(rng, nil)), cPattern{Scheme: "http", Host: "localhost"}, cPattern{Scheme: "capacitor", Host: "localhost"},
+					cPattern{Scheme: "https", Host: "a.example"}, cPattern{Scheme: "connector", Host: "a.example", Port: 7}, cPattern{Scheme: "http", Host: "b.example", Port: 8080},
+					cPattern{Scheme: "zzz", Host: "b.example"}, cPattern{Scheme: "https", Wild: true, Host: "b.example", Port: anyPort}, cPattern{Scheme: "a+a", Wild: true, Host: "b.example"})
+				c := rs.spell(rng)
+				if q%2 == 0 { // as listed (http before the custom scheme), not shuffled
+					c.Origins = nil
+					for _, pt := range rs.Pats {
+						c.Origins = append(c.Origins, pt.String())
+					}
+				}
+				c.DangerouslyTolerateInsecureOrigins = true
+				switch q % 3 {
+				case 0:
+					c.MaxAgeInSeconds = 86401
+				case 1:
+					c.ResponseHeaders = append(c.ResponseHeaders, "Set-Cookie")
+				default:
+					c.Methods = append(c.Methods, "TRACE")
+				}
+				lr.reconf("m", "invalid", c)
+				lr.observe("m")
 			}
 			if p.cfg == nil { // also the other passthrough form
 				lr.newMW("m2", "A", cfgA)
